@@ -1,7 +1,7 @@
 """Adapters for USLP primary headers, truncated headers and transfer frames."""
 from __future__ import annotations
 
-from .core import outcome, octs, after_pack, rxbuf, decoded
+from .core import outcome, octs, after_pack, rxbuf, decoded, scramble
 from .probe import decode_other
 
 
@@ -129,7 +129,8 @@ def op_frame_rt(a):
         n = fr.len()
 
         def rest():
-            d = TransferFrame.unpack(bytes(raw), _ftype(a["ftype"]), mk_props(matching(f, a["ftype"], len(raw))))
+            d = TransferFrame.unpack(rxbuf(raw), _ftype(a["ftype"]), mk_props(matching(f, a["ftype"], len(raw))))
+            scramble()          # the receive buffer is re-used: the decoded frame owns its zones
             return {"octets": octs(raw), "len": n, "flen": -1 if tr else int(fr.header.frame_len), "dec": proj_frame(d),
                     "dlen": d.len(), "repack": octs(d.pack(truncated=tr, frame_type=_ftype(a["ftype"])))}
         return after_pack(raw, rest)
